@@ -32,7 +32,7 @@ def scripts(rnd, ntables):
                 sc.append('bread %d %d' % (rnd.randint(lo, hi), rnd.randint(0, 5)))
             elif r < 0.8:
                 sc.append('get %d' % rnd.randint(0, nr))
-            elif r < 0.85 and all(x[2] != 1 for x in t['regs']):
+            elif r < 0.85 and all(x[2] != 1 for x in t['regs']) and all(a[5] == 1 for a in t['areas']):    # sanitise is specified where every register can be restored
                 ar = t['areas'][k]
                 sc.append('corrupt %d %d' % (rnd.randint(ar[0], ar[0] + ar[1] - 1), rnd.choice([0, 1, 0xFFFF, 0x7F80])))
                 sc.append('sanitise')
